@@ -55,6 +55,10 @@ def texts(tier, seed):
             out.append(" ".join(toks[:k] + [rnd.choice(VOCAB)] + toks[k + 1:]))   # one token replaced
     out += config_texts(rnd)
     out += port_texts()
+    # numbers outside 0..65535 at every position of an operand list (the list is sorted before it is rendered)
+    for big in ("65536", "70000", "4294967296", "99999999999"):
+        out += [f"eq {big} 80", f"eq 1 {big} 2", f"eq 1 2 {big}", f"neq {big} 1", f"range {big} 5", f"range 5 {big}", f"gt {big}", f"permit tcp any eq {big} 443 any",
+                f"permit udp any any range {big} 5", f"permit tcp any any eq 80 {big} 443", f"ip access-list extended A\n permit tcp any any range {big} 5\n permit ip any any"]
     out += ["", " ", "\n", "\n\n  \n", "permit " * 2000, "1 " * 3000 + "permit ip any any", "permit ip any any " + "log " * 5000, "a" * 100000,
             "ip access-list extended A\n" + " permit ip any any\n" * 3000, "remark " + "x" * 200, "0.0.0.0 " * 50, "eq " + "1 " * 5000]
     return out
@@ -130,6 +134,11 @@ def check_text(arg):
     fails = []
     n = 0
     signal.signal(signal.SIGVTALRM, _alarm)
+    try:
+        import resource
+        resource.setrlimit(resource.RLIMIT_AS, (6 << 30, 6 << 30))      # a runaway allocation ends as MemoryError in this worker, not as an OOM kill
+    except (ImportError, ValueError, OSError):
+        pass
     for text in chunk:
         for name in CLASSES + FUNCS:
             n += 1
